@@ -1,8 +1,13 @@
 """C19 — chain tracing partitions particles into simple, distance-respecting chains (DESIGN.md section 4, C19).
 
-case = {"gen": kind, "max": M, "min": m, "rows": [[tomo_id, subtomo_id, ex,ey,ez, xx,xy,xz, g4], ...]}
-All lengths are integers in units of 2^-10 (S = 1024): entry site e, exit site x, max/min distance, the value g4
-the input list carries in the distance column.  Rows are in particle-list row order (tomograms may interleave).
+case = {"gen": kind, "max": M, "min": m, "split": bool, "rows": [[tomo_id, subtomo_id, ex,ey,ez, xx,xy,xz, g4, p1..p9, o, k], ...],
+        "xpay": bool, "form": "motl"|"df", "call": {...}, "second": {"how": "moved"|"rethreshold", "rows", "max", "min"}}
+All lengths are integers in units of 2^-10 (S = 1024): entry site e, exit site x, max/min distance, the value g4 the input list carries
+in the distance column.  p1..p9 (units of 1/8) are the values of the nine fields tracing has no business with (score, geom1,
+subtomo_mean, geom3, geom5, phi, psi, theta, class), o/k the stale object/order numbers of the input lists; rows of length 9 (hand-written
+corpus) have zeros there.  Rows are in particle-list row order (tomograms may interleave).  "call" says how the call is written (which
+keywords are omitted so that the signature defaults act, which store columns are named), "second" is a second call in the same process
+on the same caller-owned lists.
 """
 import ast, math, itertools
 import core
@@ -22,6 +27,24 @@ RULE = ("paired entry/exit particle lists, 2..60 particles in 1..3 tomograms (ro
         "Ties are excluded by construction in GENERATED cases (all in-range exit->entry squared distances pairwise distinct, none equal to "
         "min^2, max^2 or 0); the corpus case min_distance_tie_lattice puts a distance exactly at min_distance and one exactly at "
         "max_distance on an integer lattice (3-4-5 triangle), where the comparison is exact, and is judged by the statement's window (min, max]. "
+        "OTHER FIELDS: every row of the entry list carries random values in the nine free fields (score, geom1, subtomo_mean, geom3, geom5, "
+        "phi, psi, theta, class; 8 % of the rows all zero), stale object/order numbers and sometimes a value in the distance column; the exit "
+        "list carries the same values or (30 %) its own; every returned row is compared, in all 17 fields other than the three store columns, "
+        "bit for bit with the entry-list row of the same (tomogram, subtomo) by the Lean checker chkFields (clause particle-returned-unaltered); "
+        "what comes back is recorded as it is (python type of every cell, dtype of every column): a cell that is not a number is a finding. "
+        "CALL: min_distance is omitted in 60 % of the cases with min_distance = 0 (about a third of all; otherwise positional or keyword), "
+        "feature='tomo_id' and output_motl=None are written out in 30 % / 15 % and omitted otherwise, the three store keywords are omitted in "
+        "66 % (signature defaults act; anchored by defaults_documented), written out with the default names in 16 %; lists are passed as Motl "
+        "objects or (20 %) as bare DataFrames. "
+        "STORE COLUMNS (outside the statement, which is about object_id/geom2/geom4): in 12 % other names for store_idx1/store_idx2 with the "
+        "default distance column - judged like every case but every finding is kind corr; in 6 % also a non-default store_dist - OBSERVED ONLY "
+        "(histogram nondefault_store_dist): trace_chains forwards store_idx1/store_idx2 but not store_dist to add_chain_suffix/add_chain_prefix "
+        "(anchor merge_calls_as_observed), so merge-link distances are read from and written to geom4 there. "
+        "SECOND CALL (18 %): after the first call the harness checks that the caller's two lists are untouched, then either moves the sites in "
+        "place in the caller's own lists (same tomogram ids, same subtomo ids: site pairs dealt out in another order + grid isometry) or changes "
+        "max/min_distance, and calls again in the same process on the same objects; the second call is judged exactly like the first; every case "
+        "starts from a freshly executed ribana module so that a finding replays from its file. "
+        "A call gets 20 s of CPU time, always; one that runs out is repeated once and reported (does-not-return) only if it runs out again. "
         "non-trivial = >= 3 particles and at least one returned chain with >= 2 members (the histograms cases_with_branch and "
         "cases_with_chain_branch count the cases per model branch and per suffix+prefix combination of one merge; impl_branch is the "
         "branch sequence observed in the REAL add_chain_suffix/add_chain_prefix calls, compared with the model's on every case); "
@@ -31,8 +54,12 @@ ASSUMPTIONS = [
     "numpy float64 arithmetic on the 2^-10 grid is exact for squared distances; sqrt is monotone and injective on the values that occur, so comparing distances = comparing their squares (recorded values are compared as |sqrt(model)-geom4| <= 1e-9)",
     "subtomo_id is unique within a tomogram (the code looks rows up by subtomo_id); min_distance >= 0 and max_distance > 0",
     "pandas: boolean-mask .loc assignment updates exactly the selected rows; concat keeps row order; get_motl_subset keeps row order",
+    "'the particle' of the statement is the row of the ENTRY list (the list trace_chains copies its rows from); fields are compared as IEEE bit patterns after adding +0.0 (so -0.0 = 0.0); no NaN is generated",
+    "the statement is about the default store columns object_id/geom2/geom4 (signature defaults, defaults_documented); other column names are exercised as correspondence / observation only",
 ]
-TRUSTED = ["props/c19.py: decoding of geom4 to the exact squared distance on the grid (re-checked by sqrt), grouping of rows by tomogram"]
+TRUSTED = ["props/c19.py: decoding of the distance column to the exact squared distance on the grid (re-checked by sqrt), grouping of rows by tomogram, "
+           "construction of the two input tables (_table, plain python) that the returned rows are compared with",
+           "props/c19.py: _canon (positional renaming of parameters/locals to the documented names) and the syntax-tree digests of the four function bodies"]
 
 RELFILE = "cryocat/ribana.py"
 OPS = {ast.Lt: "lt", ast.LtE: "le", ast.Gt: "gt", ast.GtE: "ge", ast.Eq: "eq", ast.NotEq: "ne"}
@@ -59,12 +86,140 @@ def _one_op(fn, left, right, what, count=None):
     return ops.pop()
 
 
+# documented parameter + local-variable names of the four functions, in binding order (parameters in signature order, then every local in
+# the order of its first assignment).  `_canon` renames the names found in the CURRENT source to these by POSITION, so every anchor below
+# (written in the documented names) is insensitive to a renaming of parameters/local variables; a statement that is added, removed or
+# moved changes the binding order or the digest of the whole body and is seen by `bodies_documented`.
+DOC_NAMES = {
+    "get_nn_dist": (["kdt", "query_point", "dist_max", "dist_min", "active_points", "test_value"], ["id_max", "dist", "rp_idx", "rp_dist"]),
+    "add_chain_suffix": (["chain_df", "motl", "traced_df", "subtomo_id", "current_dist", "store_idx1", "store_idx2", "store_dist"],
+                         ["particle_id", "temp_cl_id", "order_id", "previous_dist", "chain_max_order", "current_class"]),
+    "add_chain_prefix": (["chain_df", "motl", "traced_df", "subtomo_id", "current_dist", "store_idx1", "store_idx2", "store_dist", "class_max"],
+                         ["particle_id", "class_to_change", "order_id", "current_class", "cut_off_size", "previous_dist", "temp_cl_id"]),
+    "trace_chains": (["motl_entry", "motl_exit", "max_distance", "min_distance", "feature", "output_motl", "store_idx1", "store_idx2", "store_dist"],
+                     ["features1", "features2", "traced_motl", "f", "fm_entry", "fm_exit", "nfm_df", "fm_size", "remain_entry", "remain_exit",
+                      "class_c", "coord_entry", "coord_exit", "kdt_entry", "kdt_exit", "i", "current_point", "ch_m", "chain_id", "trace_chain",
+                      "p_idx", "used_idx", "p_coord", "np_idx", "np_dist", "first_coord", "nm_idx", "nm_dist", "first_idx", "first_dist",
+                      "part1", "part2", "cl1", "cl2", "ch_changed", "class_max", "current_class", "cl_max"]),
+}
+# first 60 bits of sha256(ast.dump) of the canonically renamed, docstring-free function (pinned source = documented behaviour)
+DOC_DIGEST = {"get_nn_dist": 146488371323970315, "add_chain_suffix": 209518513822851188, "add_chain_prefix": 723751338633858201,
+              "trace_chains": 660282866813664413}
+FUNCS = ["get_nn_dist", "add_chain_suffix", "add_chain_prefix", "trace_chains"]
+DOC_STORE = ["object_id", "geom2", "geom4"]
+DOC_SUFFIX_CALL = ["ch_m", "fm_exit", "nfm_df", "first_idx", "first_dist", "store_idx1", "store_idx2"]
+DOC_PREFIX_CALL = ["ch_m", "fm_entry", "nfm_df", "nm_idx", "nm_dist", "store_idx1", "store_idx2", "class_max=class_max"]
+
+
+def _binding_order(fn):
+    a = fn.args
+    params = [x.arg for x in a.posonlyargs + a.args] + ([a.vararg.arg] if a.vararg else []) + [x.arg for x in a.kwonlyargs] \
+        + ([a.kwarg.arg] if a.kwarg else [])
+    stores = sorted((n.lineno, n.col_offset, n.id) for n in ast.walk(fn) if isinstance(n, ast.Name) and isinstance(n.ctx, ast.Store))
+    loc = []
+    for _, _, i in stores:
+        if i not in params and i not in loc:
+            loc.append(i)
+    return params, loc
+
+
+def _canon(fn):
+    """copy of the function with parameters/locals renamed (by binding position) to the documented names; keyword names of calls,
+    attributes, globals and builtins are left alone (they are API, not local naming)"""
+    import copy
+    fn = copy.deepcopy(fn)
+    dp, dl = DOC_NAMES[fn.name]
+    params, loc = _binding_order(fn)
+    ren = {}
+    for have, doc in ((params, dp), (loc, dl)):
+        for k, nm in enumerate(have):
+            ren[nm] = doc[k] if k < len(doc) else f"_extra{k}_{nm}"
+    if len(set(ren.values())) != len(ren):
+        raise core.AnchorMissing(f"{fn.name}: renaming to the documented names is not injective")
+    for n in ast.walk(fn):
+        if isinstance(n, ast.Name) and n.id in ren:
+            n.id = ren[n.id]
+        elif isinstance(n, ast.arg) and n.arg in ren:
+            n.arg = ren[n.arg]
+    if fn.body and isinstance(fn.body[0], ast.Expr) and isinstance(fn.body[0].value, ast.Constant) and isinstance(fn.body[0].value.value, str):
+        fn.body = fn.body[1:]
+    return fn
+
+
+def _digest(fn):
+    import hashlib
+    return int(hashlib.sha256(ast.dump(fn, include_attributes=False).encode()).hexdigest()[:15], 16)
+
+
+def _defaults(fn):
+    """parameter name -> literal default (positional/keyword parameters that have one)"""
+    a = fn.args
+    pos = a.posonlyargs + a.args
+    out = {}
+    for p, d in zip(pos[len(pos) - len(a.defaults):], a.defaults):
+        out[p.arg] = ast.literal_eval(d)
+    for p, d in zip(a.kwonlyargs, a.kw_defaults):
+        if d is not None:
+            out[p.arg] = ast.literal_eval(d)
+    return out
+
+
 def translate(src):
     A = src.anchor
-    nn = lambda: src.find(RELFILE, "get_nn_dist")
-    sfx = lambda: src.find(RELFILE, "add_chain_suffix")
-    pfx = lambda: src.find(RELFILE, "add_chain_prefix")
-    tc = lambda: src.find(RELFILE, "trace_chains")
+    raw = lambda name: src.find(RELFILE, name)
+    _memo = {}
+
+    def canon(name):
+        if name not in _memo:
+            _memo[name] = _canon(raw(name))
+        return _memo[name]
+    nn = lambda: canon("get_nn_dist")
+    sfx = lambda: canon("add_chain_suffix")
+    pfx = lambda: canon("add_chain_prefix")
+    tc = lambda: canon("trace_chains")
+
+    seen_digest = {}
+
+    def body_digest(name):
+        d = seen_digest[name] = _digest(canon(name))
+        if d != DOC_DIGEST[name]:
+            raise core.AnchorMissing(f"{name}: the body (parameters/locals renamed to the documented names, comments and layout ignored) is not "
+                                     f"the documented one: digest {d}, documented {DOC_DIGEST[name]}")
+        return d
+
+    def public_params():
+        """the keyword names the adapter (and every caller) uses are API: NOT renamed"""
+        got = _binding_order(raw("trace_chains"))[0]
+        if got != DOC_NAMES["trace_chains"][0]:
+            raise core.AnchorMissing(f"trace_chains: parameter names {got}, documented {DOC_NAMES['trace_chains'][0]}")
+        return got
+
+    def tc_defaults():
+        d = _defaults(raw("trace_chains"))
+        want = dict(min_distance=0, feature="tomo_id", output_motl=None, store_idx1=DOC_STORE[0], store_idx2=DOC_STORE[1], store_dist=DOC_STORE[2])
+        if d != want or any(type(d[k]) is not type(want[k]) for k in want):
+            raise core.AnchorMissing(f"trace_chains: signature defaults {d}, documented {want}")
+        return d
+
+    def helper_defaults():
+        out = []
+        for name in ("add_chain_suffix", "add_chain_prefix"):
+            d = _defaults(canon(name))
+            st = [d.get("store_idx1"), d.get("store_idx2"), d.get("store_dist")]
+            if st != DOC_STORE or (name == "add_chain_prefix" and ("class_max" not in d or d["class_max"] is not None)):
+                raise core.AnchorMissing(f"{name}: signature defaults {d}, documented store columns {DOC_STORE} (and class_max=None)")
+            out.append(st)
+        return out
+
+    def merge_call(callee, want):
+        """how trace_chains calls add_chain_suffix / add_chain_prefix: positional arguments + keywords, in the documented names"""
+        calls = [n for n in ast.walk(tc()) if isinstance(n, ast.Call) and isinstance(n.func, ast.Name) and n.func.id == callee]
+        if len(calls) != 1:
+            raise core.AnchorMissing(f"trace_chains: exactly one call of {callee} expected, found {len(calls)}")
+        got = [core.norm_expr(a) for a in calls[0].args] + [f"{k.arg}={core.norm_expr(k.value)}" for k in calls[0].keywords]
+        if got != want:
+            raise core.AnchorMissing(f"trace_chains: {callee}({', '.join(got)}), documented ({', '.join(want)})")
+        return got
 
     def nn_sorted():
         for n in ast.walk(nn()):
@@ -195,6 +350,15 @@ def translate(src):
     rs = A("trace_chains:first_dist <= nm_dist (single particle / same chain)", resolve_ops) or ["le", "le"]
     v["resolveSingle"], v["resolveSameChain"] = rs
     v["bothSidesFreshId"] = A("trace_chains:two-sided merge takes a fresh object id", both_fresh)
+    # --- whole bodies (G5: every statement, also in branches no generated case executes: output_motl, the feature-set test)
+    dig = [A(f"{name}:whole body, canonical names (digest)", (lambda name=name: body_digest(name))) for name in FUNCS]
+    # --- signature defaults the statement's columns and the adapter's omitted keywords depend on (G1)
+    A("trace_chains:parameter (keyword) names", public_params)
+    tcd = A("trace_chains:defaults min_distance=0, feature='tomo_id', output_motl=None, store_idx1/2/dist", tc_defaults)
+    hd = A("add_chain_suffix/add_chain_prefix:defaults of store_idx1/store_idx2/store_dist (and class_max=None)", helper_defaults)
+    # --- how the three column names travel from trace_chains to the two merge helpers (item 2: store_dist is NOT forwarded)
+    sc = A("trace_chains:add_chain_suffix(...) call arguments", lambda: merge_call("add_chain_suffix", DOC_SUFFIX_CALL))
+    pc = A("trace_chains:add_chain_prefix(...) call arguments", lambda: merge_call("add_chain_prefix", DOC_PREFIX_CALL))
 
     doc = dict(nnSorted=True, nnTakesFirst=True, nnMaskCmp="eq", nnMinGuard="gt", nnMinCmp="gt", suffixNotLast="ne", suffixKeep="le",
                suffixTailSel="gt", tailByChainOrder=True, prefixNotFirst="ne", prefixFirstOrder=1, prefixKeep="le", prefixHeadSel="lt",
@@ -205,13 +369,25 @@ def translate(src):
     for k, d in doc.items():
         x = v.get(k)
         if x is None:
-            x = d  # last-known value; anchorsOk = false makes Props/C19 fail
+            x = d  # the DOCUMENTED value; anchorsOk = false makes Props/C19 fail
         if isinstance(d, bool):
             lines.append(f"def {k} : Bool := {'true' if x else 'false'}")
         elif isinstance(d, int):
             lines.append(f"def {k} : Int := {int(x)}")
         else:
             lines.append(f"def {k} : Cmp := .{x}")
+    # the digest found (0 when the function is missing); it does not enter the model, `bodies_documented` compares it
+    lines.append("def bodyDigests : List Nat := [" + ", ".join(str(seen_digest.get(name, 0)) for name in FUNCS) + "]")
+    tcd = tcd or dict(min_distance=0, feature="tomo_id", store_idx1=DOC_STORE[0], store_idx2=DOC_STORE[1], store_dist=DOC_STORE[2])
+    lines.append(f"def minDistanceDefault : Int := {int(tcd['min_distance'])}")
+    lines.append(f"def featureDefault : String := {core.lean_str(tcd['feature'])}")
+    lines.append("def storeDefaults : List String := " + core.lean_str_list([tcd["store_idx1"], tcd["store_idx2"], tcd["store_dist"]]))
+    lines.append("def helperStoreDefaults : List (List String) := [" + ", ".join(core.lean_str_list(x) for x in (hd or [DOC_STORE, DOC_STORE])) + "]")
+    sc, pc = sc or DOC_SUFFIX_CALL, pc or DOC_PREFIX_CALL
+    lines.append("def suffixCall : List String := " + core.lean_str_list(sc))
+    lines.append("def prefixCall : List String := " + core.lean_str_list(pc))
+    fwd = any("store_dist" in a for a in sc) and any("store_dist" in a for a in pc)
+    lines.append(f"def storeDistForwarded : Bool := {'true' if fwd else 'false'}")
     body = "\n".join(lines)
     return f"""-- GENERATED by harness/props/c19.py from {RELFILE}; do not edit
 namespace CryoCat.Gen.C19
@@ -436,6 +612,74 @@ def _build(rng, tier):
     return dict(gen="+".join(kinds), max=int(round(maxd * S)), min=int(round(mind * S)), rows=rows, split=rng.random() < 0.5)
 
 
+NONDEFAULT_COLS = ["geom1", "geom3", "geom5", "score", "subtomo_mean", "class"]
+
+
+def _decorate(rng, case):
+    """the axes that do not touch the geometry: payload of the other fields, how the call is written (G1), the store columns (item 2), a second call in the same process (G2)"""
+    for r in case["rows"]:
+        if rng.random() < 0.08:
+            pay = [0] * 9
+        else:
+            pay = [rng.choice([rng.randint(-2000, 2000), rng.randint(-40, 40) * 8, rng.randint(1, 9)]) for _ in range(9)]
+        # stale object / order numbers in the input lists (tracing overwrites both): small ones collide with real numbers
+        stale = [rng.choice([0, 0, -1, 1, 2, rng.randint(1, 70)]), rng.choice([0, 0, 1, 2, rng.randint(-3, 70)])]
+        r.extend(pay + stale)
+    case["xpay"] = rng.random() < 0.3            # the exit list carries its own values in the other fields
+    case["form"] = "df" if rng.random() < 0.2 else "motl"   # lists passed as Motl objects or as bare DataFrames
+    call = {}
+    if case["min"] == 0:
+        call["min"] = "omit" if rng.random() < 0.6 else rng.choice(["pos", "kw"])
+    else:
+        call["min"] = rng.choice(["pos", "kw"])
+    call["feature"] = rng.random() < 0.3         # feature="tomo_id" written out, else omitted (default)
+    call["output_motl"] = rng.random() < 0.15    # output_motl=None written out
+    k = rng.random()
+    if k < 0.66:
+        call["store"] = None                      # the three keywords omitted: the signature defaults are exercised
+    elif k < 0.82:
+        call["store"] = list(DOC_STORE)           # the defaults written out
+    elif k < 0.94:
+        a, b = rng.sample(NONDEFAULT_COLS, 2)
+        call["store"] = [a, b, rng.choice(["geom4", None])]      # other index columns, default distance column
+    else:
+        a, b, c = rng.sample(NONDEFAULT_COLS, 3)
+        call["store"] = [a, b, c]                 # non-default distance column: observation only (see RULE)
+    case["call"] = call
+    # G2: a second call in the same process with the SAME caller-owned lists
+    k = rng.random()
+    if k < 0.12:
+        case["second"] = _moved(rng, case)
+    elif k < 0.18:
+        m2 = rng.choice([0, case["max"] // 8, case["max"] // 3])
+        M2 = rng.choice([case["max"] // 2, case["max"] * 2, case["max"] + S // 2])
+        sec = dict(how="rethreshold", rows=[list(r) for r in case["rows"]], max=M2, min=m2)
+        if tie_free(dict(case, **sec)):
+            case["second"] = sec
+    return case
+
+
+def _moved(rng, case):
+    """the same particles (tomogram ids, subtomo ids, all other fields) with MOVED sites: inside every tomogram the (entry, exit) site
+    pairs are dealt out to the particles in another order and the whole tomogram is mirrored / axis-swapped / shifted on the grid
+    (an isometry of the grid and a relabelling: tie-freeness is kept)"""
+    ids, per = _tomos(case)
+    new = {}
+    for t, rows in zip(ids, per):
+        perm = list(range(len(rows)))
+        rng.shuffle(perm)
+        if len(rows) > 1 and perm == sorted(perm):
+            perm = perm[1:] + perm[:1]
+        ax = rng.sample([0, 1, 2], 3)
+        sg = [rng.choice([1, -1]) for _ in range(3)]
+        off = [rng.randint(-20, 20) * S for _ in range(3)]
+        tf = lambda p: [sg[k] * p[ax[k]] + off[k] for k in range(3)]
+        for k, r in enumerate(rows):
+            src = rows[perm[k]]
+            new[(r[0], r[1])] = tf(src[2:5]) + tf(src[5:8])
+    return dict(how="moved", rows=[r[:2] + new[(r[0], r[1])] + r[8:] for r in case["rows"]], max=case["max"], min=case["min"])
+
+
 def generate(rng, tier, n):
     made = 0
     while made < n:
@@ -450,26 +694,64 @@ def generate(rng, tier, n):
         if not ok or not (2 <= len(case["rows"]) <= 60):
             continue
         made += 1
-        yield case
+        yield _decorate(rng, case)
+
+
+def _calls(case):
+    """the library calls of one case, each as a self-contained single-call case"""
+    first = {k: v for k, v in case.items() if k != "second"}
+    out = [first]
+    if case.get("second"):
+        sec = case["second"]
+        out.append(dict(first, rows=sec["rows"], max=sec["max"], min=sec["min"], how=sec.get("how", "moved")))
+    return out
 
 
 def shrink(case):
     rows = case["rows"]
+    sec = case.get("second")
+
+    def keep(pred):
+        c = dict(case, rows=[r for r in rows if pred(r)])
+        if sec:
+            c["second"] = dict(sec, rows=[r for r in sec["rows"] if pred(r)])
+        return c
+    if sec:
+        yield {k: v for k, v in case.items() if k != "second"}                        # the first call alone
+        alone = dict({k: v for k, v in case.items() if k != "second"}, rows=sec["rows"], max=sec["max"], min=sec["min"])
+        yield alone                                                                    # the second call alone (fresh process state)
     ids, per = _tomos(case)
     if len(ids) > 1:
         for t in ids:
-            yield dict(case, rows=[r for r in rows if r[0] != t])
+            yield keep(lambda r, t=t: r[0] != t)
     if len(rows) > 2:
         h = len(rows) // 2
-        yield dict(case, rows=rows[:h])
-        yield dict(case, rows=rows[h:])
-        for i in range(len(rows)):
-            yield dict(case, rows=rows[:i] + rows[i + 1:])
+        first, last = {(r[0], r[1]) for r in rows[:h]}, {(r[0], r[1]) for r in rows[h:]}
+        yield keep(lambda r: (r[0], r[1]) in first)
+        yield keep(lambda r: (r[0], r[1]) in last)
+        for r0 in rows:
+            yield keep(lambda r, k=(r0[0], r0[1]): (r[0], r[1]) != k)
     if case.get("split"):
         yield dict(case, split=False)
+    if case.get("form", "motl") != "motl":
+        yield dict(case, form="motl")
+    if case.get("call"):
+        c = dict(case)
+        c.pop("call")
+        yield c
+    if case.get("xpay"):
+        yield dict(case, xpay=False)
     if any(r[8] for r in rows):
-        yield dict(case, rows=[r[:8] + [0] for r in rows])
-    if case["min"] != 0:
+        c = dict(case, rows=[r[:8] + [0] + r[9:] for r in rows])
+        if sec:
+            c["second"] = dict(sec, rows=[r[:8] + [0] + r[9:] for r in sec["rows"]])
+        yield c
+    if any(any(r[9:]) for r in rows):
+        c = dict(case, rows=[r[:9] for r in rows])
+        if sec:
+            c["second"] = dict(sec, rows=[r[:9] for r in sec["rows"]])
+        yield c
+    if case["min"] != 0 and not sec:
         c = dict(case, min=0)
         if tie_free(c):
             yield c
@@ -478,28 +760,86 @@ def shrink(case):
 # ------------------------------------------------------------------ implementation
 COLS = ["score", "geom1", "geom2", "subtomo_id", "tomo_id", "object_id", "subtomo_mean", "x", "y", "z",
         "shift_x", "shift_y", "shift_z", "geom3", "geom4", "geom5", "phi", "psi", "theta", "class"]
+PAY_COLS = ["score", "geom1", "subtomo_mean", "geom3", "geom5", "phi", "psi", "theta", "class"]   # row[9:18], in units of 1/8
+STALE_COLS = ["object_id", "geom2"]                                                                   # row[18:20]
+COORD_COLS = ["x", "y", "z", "shift_x", "shift_y", "shift_z"]
+XPAY_OFFSET = 4096.0   # what the exit list adds to every free field when it carries its own values
+
+
+def _table(case, which):
+    """the 20 columns of the entry ("entry") or exit ("exit") list of a single-call case, as python floats, rows in list order;
+    written without pandas: this is also what the output rows are compared with"""
+    lo = 2 if which == "entry" else 5
+    own = which == "exit" and case.get("xpay")
+    out = []
+    for r in case["rows"]:
+        r = list(r) + [0] * (20 - len(r))
+        d = dict.fromkeys(COLS, 0.0)
+        c = [v / S for v in r[lo:lo + 3]]
+        if case.get("split"):
+            whole = [float(math.floor(v)) for v in c]
+            d["x"], d["y"], d["z"] = whole
+            d["shift_x"], d["shift_y"], d["shift_z"] = [a - b for a, b in zip(c, whole)]
+        else:
+            d["x"], d["y"], d["z"] = c
+        d["tomo_id"], d["subtomo_id"] = float(r[0]), float(r[1])
+        d["geom4"] = r[8] / S
+        for k, name in enumerate(PAY_COLS):
+            d[name] = r[9 + k] / 8.0
+        for k, name in enumerate(STALE_COLS):
+            d[name] = float(r[18 + k])
+        if own:
+            for name in PAY_COLS + STALE_COLS + ["geom4"]:
+                d[name] += XPAY_OFFSET
+        out.append([d[c] for c in COLS])
+    return out
+
+
+def _frame(case, which):
+    import pandas as pd
+    return pd.DataFrame(_table(case, which), columns=COLS, dtype=float)
 
 
 def _motl(case, lo):
-    import numpy as np, pandas as pd
+    """(kept for replay tools) the entry (lo=2) / exit (lo=5) list as a Motl"""
     from cryocat import cryomotl
-    rows = case["rows"]
-    df = pd.DataFrame(0.0, index=range(len(rows)), columns=COLS)
-    c = np.array([r[lo:lo + 3] for r in rows], dtype=float) / S
-    if case.get("split"):
-        whole = np.floor(c)
-        df[["x", "y", "z"]] = whole
-        df[["shift_x", "shift_y", "shift_z"]] = c - whole
-    else:
-        df[["x", "y", "z"]] = c
-    df["tomo_id"] = [float(r[0]) for r in rows]
-    df["subtomo_id"] = [float(r[1]) for r in rows]
-    df["geom4"] = [r[8] / S for r in rows]
-    return cryomotl.Motl(df)
+    return cryomotl.Motl(_frame(case, "entry" if lo == 2 else "exit"))
 
 
-_LIMIT = [20]  # seconds granted to one trace_chains call (normal: < 1 s); 2 s once a call has run into the limit
+def _store(case):
+    """(object column, order column, distance column, mode): mode 'default' = the statement's configuration, 'idx' = other index
+    columns with the default distance column (judged against the model: corr), 'dist' = non-default distance column (observed only)"""
+    st = (case.get("call") or {}).get("store")
+    if not st:
+        return DOC_STORE + ["default"]
+    a, b, c = st[0], st[1], (st[2] or DOC_STORE[2])
+    mode = "default" if [a, b, c] == DOC_STORE else "idx" if c == DOC_STORE[2] else "dist"
+    return [a, b, c, mode]
 
+
+def _call_args(case):
+    call = case.get("call") or {"min": "pos"}
+    args, kw = [case["max"] / S], {}
+    how = call.get("min", "pos")
+    if how == "pos" or (how == "omit" and case["min"] != 0):
+        args.append(case["min"] / S)
+    elif how == "kw":
+        kw["min_distance"] = case["min"] / S
+    if call.get("feature"):
+        kw["feature"] = "tomo_id"
+    if call.get("output_motl"):
+        kw["output_motl"] = None
+    st = call.get("store")
+    if st:
+        for name, v in zip(("store_idx1", "store_idx2", "store_dist"), st):
+            if v is not None:
+                kw[name] = v
+    return args, kw
+
+
+CPU_LIMIT = 20     # CPU seconds granted to one trace_chains call (normal: < 1 s), ALWAYS; CPU time does not grow with the machine's load
+WALL_LIMIT = 120   # wall-clock backstop for a call that blocks without burning CPU
+_CONFIRMED = [0]   # calls of this process that did not return on two attempts in a row
 
 EVENT_TAGS = ("suffix-keep", "suffix-cut", "suffix-reject", "prefix", "prefix-cut", "prefix-reject", "both", "both-cut")
 
@@ -514,13 +854,13 @@ def _watch_branches(ribana, events):
     def args_of(fn, a, k):
         b = inspect.signature(fn).bind(*a, **k)
         b.apply_defaults()
-        return b.arguments
+        return list(b.arguments.values())   # by POSITION: chain_df, motl, traced_df, subtomo_id, current_dist, idx1, idx2, dist[, class_max]
 
     def suffix(*a, **k):
         cls = None
         try:
             g = args_of(orig["add_chain_suffix"], a, k)
-            cls = g["chain_df"][g["store_idx1"]].values[0]
+            cls = g[0][g[5]].values[0]
         except Exception:
             pass
         r = orig["add_chain_suffix"](*a, **k)
@@ -530,7 +870,7 @@ def _watch_branches(ribana, events):
             elif not r:
                 events.append("suffix-reject")
             else:
-                events.append("suffix-cut" if bool((g["traced_df"][g["store_idx1"]] == cls).any()) else "suffix-keep")
+                events.append("suffix-cut" if bool((g[2][g[5]] == cls).any()) else "suffix-keep")
         except Exception:
             events.append("?")
         return r
@@ -539,8 +879,8 @@ def _watch_branches(ribana, events):
         piece, both = None, False
         try:
             g = args_of(orig["add_chain_prefix"], a, k)
-            both = g["class_max"] is not None
-            piece = g["class_max"][1] if both else g["chain_df"][g["store_idx1"]].values[0]
+            both = g[8] is not None
+            piece = g[8][1] if both else g[0][g[5]].values[0]
         except Exception:
             pass
         r = orig["add_chain_prefix"](*a, **k)
@@ -550,7 +890,7 @@ def _watch_branches(ribana, events):
             elif r is not None and r == -1:
                 events.append("prefix-reject")
             else:
-                cut = bool((g["traced_df"][g["store_idx1"]] == piece).any())
+                cut = bool((g[2][g[5]] == piece).any())
                 events.append(("both" if both else "prefix") + ("-cut" if cut else ""))
         except Exception:
             events.append("?")
@@ -560,57 +900,194 @@ def _watch_branches(ribana, events):
     return orig
 
 
-def run_impl(case):
-    """the real trace_chains; a call that does not return (a broken loop may cycle for ever) becomes an error observation"""
+class _DidNotReturn(BaseException):
+    """raised by the timers; a BaseException so that no `except Exception` inside the library swallows it"""
+
+
+def _in_cryocat(tb):
+    import traceback
+    where = ""
+    for fr in traceback.extract_tb(tb):
+        if "/cryocat/" in fr.filename.replace("\\", "/"):
+            where = f"{fr.filename.replace(chr(92), '/').rsplit('/', 1)[-1]}:{fr.lineno}"
+    return where
+
+
+def _timed(fn):
+    """run fn() under the CPU-time limit (SIGPROF) and the wall-clock backstop (SIGALRM) -> ("ok", value) | ("timeout", None) |
+    ("raised", (text, where-in-cryocat or ""))"""
     import signal
-    from cryocat import ribana
-    events, orig = [], {}
-    try:
-        orig = _watch_branches(ribana, events)
-    except Exception:
-        events = None
 
-    def _expired(signum, frame):
-        _LIMIT[0] = 2
-        raise TimeoutError(f"trace_chains did not return within the time limit ({len(case['rows'])} particles)")
-
-    old = signal.signal(signal.SIGALRM, _expired)
-    signal.alarm(_LIMIT[0])
+    def expired(signum, frame):
+        raise _DidNotReturn()
+    old_a = signal.signal(signal.SIGALRM, expired)
+    old_p = signal.signal(signal.SIGPROF, expired)
+    signal.setitimer(signal.ITIMER_PROF, CPU_LIMIT)
+    signal.alarm(WALL_LIMIT)
     try:
-        out = ribana.trace_chains(_motl(case, 2), _motl(case, 5), case["max"] / S, case["min"] / S)
+        return "ok", fn()
+    except _DidNotReturn:
+        return "timeout", None
+    except Exception as e:
+        return "raised", (f"{type(e).__name__}: {str(e)[:300]}", _in_cryocat(e.__traceback__))
     finally:
+        signal.setitimer(signal.ITIMER_PROF, 0)
         signal.alarm(0)
-        signal.signal(signal.SIGALRM, old)
-        for n, f in orig.items():
-            setattr(ribana, n, f)
+        signal.signal(signal.SIGALRM, old_a)
+        signal.signal(signal.SIGPROF, old_p)
+
+
+def _frame_diff(before, after, name):
+    """what a call did to a caller-owned list (G2): nothing is the only acceptable answer"""
+    import numpy as np
+    try:
+        if list(after.columns) != list(before.columns):
+            return f"{name}: columns changed to {list(after.columns)[:6]}..."
+        if after.shape != before.shape or list(after.index) != list(before.index):
+            return f"{name}: shape/index changed {before.shape} -> {after.shape}"
+        if [str(t) for t in after.dtypes] != [str(t) for t in before.dtypes]:
+            return f"{name}: column types changed"
+        for c in before.columns:
+            a, b = after[c].to_numpy(), before[c].to_numpy()
+            bad = np.flatnonzero(~((a == b) | ((a != a) & (b != b))))
+            if bad.size:
+                return f"{name}: column {c} row {int(bad[0])}: {b[bad[0]]!r} -> {a[bad[0]]!r} ({bad.size} cells of this column)"
+    except Exception as e:
+        return f"{name}: cannot be compared after the call ({type(e).__name__}: {e})"
+    return None
+
+
+def _observe(out):
+    """the returned list as it is: per row the 20 fields as IEEE bit patterns (numbers only), the column types, what is not a number"""
+    import numbers
     df = out.df
-    res = []
-    for t, s, o, k, g in zip(df["tomo_id"], df["subtomo_id"], df["object_id"], df["geom2"], df["geom4"]):
-        res.append([float(t), float(s), float(o), float(k), f2b(float(g))])
-    return {"rows": res, "events": events}
+    missing = [c for c in COLS if c not in df.columns]
+    if missing:
+        return {"malformed": f"returned table lacks the columns {missing}"}
+    cols = {c: df[c].tolist() for c in COLS}     # python objects as pandas hands them out: no coercion
+    n = len(df)
+    rows, nonnum = [], []
+    for i in range(n):
+        row = []
+        for c in COLS:
+            v = cols[c][i]
+            if isinstance(v, bool) or not isinstance(v, numbers.Real):
+                nonnum.append([c, i, f"{type(v).__name__} {v!r}"[:60]])
+                row.append(-1)
+            else:
+                row.append(f2b(float(v) + 0.0))
+        rows.append(row)
+    return {"rows": rows, "dtypes": {c: str(df[c].dtype) for c in COLS}, "nonnum": nonnum[:20]}
+
+
+def _one_call(ribana, case, given, owned):
+    """one trace_chains call on the caller's objects `given` (what is passed) whose tables are `owned` (entry, exit DataFrames)"""
+    events, orig = [], {}
+    args, kw = _call_args(case)
+    obs = {}
+    for attempt in (1, 2):
+        before = [owned[0].copy(deep=True), owned[1].copy(deep=True)]
+        del events[:]
+        try:
+            orig = _watch_branches(ribana, events)
+        except Exception:
+            orig, events = {}, None
+        try:
+            status, val = _timed(lambda: ribana.trace_chains(given[0], given[1], *args, **kw))
+        finally:
+            for n, f in orig.items():
+                setattr(ribana, n, f)
+        changed = [m for m in (_frame_diff(before[0], owned[0], "entry list"), _frame_diff(before[1], owned[1], "exit list")) if m]
+        if status != "timeout":
+            break
+        if changed:   # the aborted call left the caller's lists half-edited: restore them for the second attempt
+            for o, b in zip(owned, before):
+                o.iloc[:, :] = b.values
+        obs["retried"] = True
+    if status == "timeout":
+        _CONFIRMED[0] += 1
+        obs.update(error=f"TimeoutError: trace_chains did not return within {CPU_LIMIT} s of CPU time on two attempts in a row "
+                         f"({len(case['rows'])} particles)", where="ribana.py")
+    elif status == "raised":
+        text, where = val
+        if where:
+            obs.update(error=text, where=where)
+        else:
+            obs.update(harness_error=text)   # no frame inside cryocat: harness or third-party failure (G4)
+    else:
+        try:
+            obs.update(_observe(val))
+        except Exception as e:
+            obs.update(harness_error=f"observation failed: {type(e).__name__}: {e}")
+        obs["events"] = events
+    obs["input_changed"] = changed
+    return obs
+
+
+def run_impl(case):
+    """the real trace_chains, once or (G2) twice in this process on the same caller-owned lists; every failure mode becomes an
+    observation: raised inside cryocat / raised elsewhere / did not return (confirmed on a second attempt) / returned table"""
+    import importlib
+    from cryocat import ribana, cryomotl
+    try:
+        # every case starts from a freshly executed ribana module: state the module keeps between calls (caches, counters) can leak
+        # from the first to the second call of ONE case - where it is judged and replays deterministically - but never from one
+        # case into the next (a finding on a single-call case would not reproduce from its replay file)
+        ribana = importlib.reload(ribana)
+    except Exception:
+        pass
+    calls = _calls(case)
+    out = []
+    owned = given = None
+    for k, cc in enumerate(calls):
+        if _CONFIRMED[0] >= 2:
+            out.append({"skipped": "two calls of this process did not return (each confirmed on a second attempt); not run"})
+            continue
+        if k == 0:
+            owned = [_frame(cc, "entry"), _frame(cc, "exit")]
+            given = owned if cc.get("form") == "df" else [cryomotl.Motl(owned[0]), cryomotl.Motl(owned[1])]
+            if given is not owned and (given[0].df is not owned[0] or given[1].df is not owned[1]):
+                owned = [given[0].df, given[1].df]
+        elif cc.get("how") == "moved":
+            # the caller edits the SAME lists in place (legitimately: the particles were re-positioned) and traces again
+            for o, which in zip(owned, ("entry", "exit")):
+                new = _frame(cc, which)
+                for c in COORD_COLS:
+                    o[c] = new[c].to_numpy()
+        out.append(_one_call(ribana, cc, given, owned))
+    return {"calls": out}
 
 
 def _decode(case, obs):
-    """impl rows -> (tomogram number, position, obj, ord, squared distance on the grid), plus problems seen on the way"""
+    """impl rows -> (tomogram number, position, obj, ord, squared distance on the grid) read from the three store columns, the full rows
+    as (tomogram number, position, 20 bit patterns), plus problems seen on the way"""
     ids, per = _tomos(case)
     where = {}
     for t, rows in enumerate(per):
         for i, r in enumerate(rows):
             where[(r[0], r[1])] = (t, i)
-    out, problems = [], []
-    for t, s, o, k, gb in obs["rows"]:
-        g = b2f(gb)
-        if not all(float(v).is_integer() for v in (t, s, o, k)) or not (g == g) or g < 0:
-            problems.append(f"row (tomo {t}, subtomo {s}): non-integral id/order or invalid distance ({o}, {k}, {g})"); continue
+    co, ck, cd, _ = _store(case)
+    io, ik, idist, it, isub = (COLS.index(c) for c in (co, ck, cd, "tomo_id", "subtomo_id"))
+    out, full, problems = [], [], []
+    for row in obs["rows"]:
+        if -1 in (row[it], row[isub], row[io], row[ik], row[idist]):
+            problems.append("a row whose tomo_id/subtomo_id/object/order/distance cell is not a number"); continue
+        t, s, o, k, g = (b2f(row[i]) for i in (it, isub, io, ik, idist))
+        if not all(v == v and abs(v) < 1e15 and float(v).is_integer() for v in (t, s, o, k)):
+            problems.append(f"row (tomo {t}, subtomo {s}): non-integral id/object/order number ({o}, {k})"); continue
         key = (int(t), int(s))
         if key not in where:
             problems.append(f"row (tomo {t}, subtomo {s}) is not an input particle"); continue
+        # the recorded value as an exact squared distance on the grid; anything else (negative, NaN, off the grid) gets a code < 0 that
+        # can never equal a squared distance: the checker then rejects it wherever the statement constrains the value (a chain's last
+        # member keeps whatever the input list held in that column; the statement does not constrain it)
         v = g * S
-        r2 = int(round(v * v))
-        if abs(math.sqrt(r2) / S - g) > 1e-9 * max(1.0, g):
-            r2 = -1 - r2  # not on the grid of squared distances: can never equal a squared distance
+        r2 = int(round(v * v)) if (g == g and 0 <= v < 1e12) else -1
+        if r2 < 0 or abs(math.sqrt(r2) / S - g) > 1e-9 * max(1.0, g):
+            r2 = -1 - abs(r2)
         out.append(list(where[key]) + [int(o), int(k), r2])
-    return out, problems
+        full.append(list(where[key]) + list(row))
+    return out, full, problems
 
 
 def _tomo_req(case):
@@ -618,12 +1095,27 @@ def _tomo_req(case):
     return [[r[2:8] + [r[8] * r[8]] for r in rows] for rows in per]
 
 
+def _entry_req(case):
+    """per tomogram, per position: the 20 fields of the entry-list row as bit patterns"""
+    tab = {(r[0], r[1]): [f2b(v + 0.0) for v in vals] for r, vals in zip(case["rows"], _table(case, "entry"))}
+    ids, per = _tomos(case)
+    return [[tab[(r[0], r[1])] for r in rows] for rows in per]
+
+
+def _returned(co):
+    return "rows" in co
+
+
 def requests(case, obs):
-    base = dict(max=case["max"], min=case["min"], tomos=_tomo_req(case))
-    reqs = [dict(base, op="trace")]
-    if "error" not in obs:
-        out, _ = _decode(case, obs)
-        reqs.append(dict(base, op="check", out=out))
+    reqs = []
+    if "calls" not in obs:
+        return reqs
+    for cc, co in zip(_calls(case), obs["calls"]):
+        base = dict(max=cc["max"], min=cc["min"], tomos=_tomo_req(cc))
+        reqs.append(dict(base, op="trace"))
+        if _returned(co):
+            out, full, _ = _decode(cc, co)
+            reqs.append(dict(base, op="check", out=out, outp=full, entry=_entry_req(cc), store=_store(cc)[:3]))
     return reqs
 
 
@@ -650,15 +1142,49 @@ def _explain(case, out):
     return "; ".join(msgs[:4])
 
 
-def judge(case, obs, resps):
-    if "error" in obs:
-        clause = "does-not-return" if obs["error"].startswith("TimeoutError") else "raises"
-        return [dict(kind="spec", clause=clause, detail=obs["error"] + " @" + obs.get("where", ""))]
-    out, problems = _decode(case, obs)
+def _altered(case, full):
+    """which returned rows differ from their entry-list row outside the three store columns (detail of the `fields` verdict)"""
+    ids, per = _tomos(case)
+    entry = _entry_req(case)
+    skip = set(_store(case)[:3])
+    msgs = []
+    for row in full:
+        t, i, vals = row[0], row[1], row[2:]
+        want = entry[t][i]
+        bad = [c for c, a, b in zip(COLS, vals, want) if c not in skip and a != b]
+        if bad:
+            c = bad[0]
+            a, b = vals[COLS.index(c)], want[COLS.index(c)]
+            msgs.append(f"tomo {ids[t]} subtomo {per[t][i][1]}: {c} is {b2f(a) if a >= 0 else 'not a number'}, the entry list holds {b2f(b)}"
+                        + (f" (also {bad[1:5]})" if len(bad) > 1 else ""))
+    return msgs
+
+
+def _judge_call(case, co, rs):
+    mode = _store(case)[3]
+    if "skipped" in co:
+        return []
+    if "harness_error" in co:
+        return [dict(kind="corr", clause="harness-or-library-raised", detail=co["harness_error"])]
+    if mode == "dist":
+        return []     # non-default distance column: outside the statement, observed in stats only (see RULE)
     fs = []
+    if co.get("input_changed"):
+        fs.append(dict(kind="spec", clause="caller-lists-unchanged", detail="; ".join(co["input_changed"])))
+    if "error" in co:
+        clause = "does-not-return" if co["error"].startswith("TimeoutError") else "raises"
+        return fs + [dict(kind="spec", clause=clause, detail=co["error"] + " @" + co.get("where", ""))]
+    if "malformed" in co:
+        return fs + [dict(kind="spec", clause="every-particle-exactly-once", detail=co["malformed"])]
+    if co.get("nonnum"):
+        fs.append(dict(kind="spec", clause="numeric-field-returned-as-text",
+                       detail="; ".join(f"column {c} row {i}: {v}" for c, i, v in co["nonnum"][:4])))
+    out, full, problems = _decode(case, co)
     if problems:
         fs.append(dict(kind="spec", clause="every-particle-exactly-once", detail="; ".join(problems[:3])))
-    model, chk = resps[0], resps[1]
+    if len(rs) < 2:
+        return fs + [dict(kind="corr", clause="driver-error", detail="no checker answer")]
+    model, chk = rs[0], rs[1]
     if "error" in chk or "error" in model:
         return fs + [dict(kind="corr", clause="driver-error", detail=f"{model} {chk}"[:300])]
     if not chk["once"]:
@@ -667,12 +1193,15 @@ def judge(case, obs, resps):
         dup = sorted({k for k in keys if keys.count(k) > 1})
         fs.append(dict(kind="spec", clause="every-particle-exactly-once",
                        detail=f"{n_in} input particles, {len(out)} returned rows, duplicated (tomogram#, position) {dup[:5]}, missing {n_in - len(set(keys))}"))
+    if not chk.get("fields", False):
+        fs.append(dict(kind="spec", clause="particle-returned-unaltered",
+                       detail="; ".join(_altered(case, full)[:3]) or "the field checker rejected the output"))
     if not chk["orders"]:
         fs.append(dict(kind="spec", clause="orders-1..k-per-chain", detail=_explain(case, out)))
     if not chk["dist"]:
         fs.append(dict(kind="spec", clause="consecutive-distance-window-and-recorded-value", detail=_explain(case, out)))
     # correspondence of the control flow: the real code went through the same suffix/prefix branches, in the same order
-    ev = obs.get("events")
+    ev = co.get("events")
     if ev is not None and "?" not in ev:
         mt = [t for tm in model["tomos"] for t in tm["tags"] if t in EVENT_TAGS]
         if ev != mt:
@@ -690,16 +1219,43 @@ def judge(case, obs, resps):
             fs.append(dict(kind="corr", clause="impl-vs-model-rows", detail=f"tomo {ids[t]}: impl (pos,obj,ord) {a[:12]} model {b[:12]}"))
         elif any((x[4] if x[4] >= 0 else None) != y[3] for x, y in zip(mine, mrows)):
             fs.append(dict(kind="corr", clause="impl-vs-model-distance", detail=f"tomo {ids[t]}: recorded values differ: impl {[x[4] for x in mine][:12]} model {[y[3] for y in mrows][:12]}"))
+    # types: the lists went in as float64 columns; anything else coming back is reported against the model's (float) columns
+    odd = {c: d for c, d in (co.get("dtypes") or {}).items() if d != "float64"}
+    if odd and not co.get("nonnum"):
+        fs.append(dict(kind="corr", clause="column-types", detail=f"float64 lists went in, returned column types {odd}"))
+    if mode == "idx":
+        # non-default index columns: outside the statement's configuration -> never more than a correspondence finding
+        fs = [dict(f, kind="corr", clause="nondefault-store-columns/" + f["clause"]) for f in fs]
     return fs
+
+
+def judge(case, obs, resps):
+    if "calls" not in obs:
+        # run_impl itself failed before/after the library calls (every library failure is caught per call): not the code under test
+        return [dict(kind="corr", clause="harness-or-library-raised", detail=str(obs.get("error", obs))[:300] + " @" + str(obs.get("where", "")))]
+    fs, pos = [], 0
+    calls = _calls(case)
+    for k, (cc, co) in enumerate(zip(calls, obs["calls"])):
+        n = 2 if _returned(co) else 1
+        rs = resps[pos:pos + n]
+        pos += n
+        for f in _judge_call(cc, co, rs):
+            if k > 0:
+                f = dict(f, detail=f"call #{k+1} in the same process on the same lists ({cc.get('how')}): " + f["detail"])
+            fs.append(f)
+    return fs
+
+
+def classify(case, obs, finding):
+    return None
 
 
 MERGE_TAGS = {"suffix-keep", "suffix-cut", "suffix-reject", "prefix", "prefix-cut", "prefix-reject", "both", "both-cut", "resolve-one"}
 
 
 def _tags(resps):
-    if not resps or "tomos" not in resps[0]:
-        return []
-    return [t for tm in resps[0]["tomos"] for t in tm["tags"]]
+    """model branch tags of every trace response of the case (one per library call)"""
+    return [t for r in (resps or []) if isinstance(r, dict) and "tomos" in r and "ok" not in r for tm in r["tomos"] for t in tm["tags"]]
 
 
 def _combos(tags):
@@ -716,39 +1272,76 @@ def _combos(tags):
     return out
 
 
+def _first_rows(case, obs):
+    """(object, order) pairs of the first call's output in the statement's columns, [] when there is none"""
+    try:
+        co = obs["calls"][0]
+        return [(o, k) for _, _, o, k, _ in _decode(_calls(case)[0], co)[0]] if _returned(co) else []
+    except Exception:
+        return []
+
+
 def nontrivial(case, obs):
-    if "error" in obs:
-        return False
-    ks = [r[3] for r in obs["rows"]]
+    ks = [k for _, k in _first_rows(case, obs)]
     return len(case["rows"]) >= 3 and any(k >= 2 for k in ks)
 
 
 def stats(case, obs, resps):
     n = len(case["rows"])
     tags = [t for t in _tags(resps) if t != "skip"]
+    call = case.get("call") or {}
     d = {"particles": "2-5" if n <= 5 else "6-12" if n <= 12 else "13-30" if n <= 30 else "31-60",
          "tomograms": len(_tomos(case)[0]), "generator": case.get("gen", "corpus").split("+"),
          "min_distance": "0" if case["min"] == 0 else ">0",
          "model_branch": tags, "cases_with_branch": sorted(set(tags) & MERGE_TAGS) or ["append-only"],
-         "cases_with_chain_branch": sorted({t for tm in (resps[0].get("tomos", []) if resps else [])
-                                            for t in _combos([x for x in tm["tags"] if x != "skip"])})}
-    if "error" not in obs:
-        sizes = {}
-        for t, s, o, k, g in obs["rows"]:
-            sizes[(t, o)] = sizes.get((t, o), 0) + 1
-        d["chain_length"] = ["1" if v == 1 else "2-3" if v <= 3 else "4-8" if v <= 8 else ">8" for v in sizes.values()]
-        ev = obs.get("events")
-        d["impl_branch_trace"] = "unavailable" if ev is None or "?" in ev else "compared"
-        if ev:
-            d["impl_branch"] = [e for e in ev if e != "?"]
-    else:
-        d["impl_error"] = obs["error"][:60]
+         "cases_with_chain_branch": sorted({t for r in (resps or []) if isinstance(r, dict) and "tomos" in r
+                                            for tm in r["tomos"] for t in _combos([x for x in tm["tags"] if x != "skip"])}),
+         "call_min_distance": call.get("min", "pos") if case.get("call") else "pos (corpus)",
+         "call_feature_kw": "written" if call.get("feature") else "omitted (default)",
+         "call_store_columns": "omitted (defaults)" if not call.get("store") else
+         {"default": "defaults written out", "idx": "other index columns, distance column geom4 (judged corr)",
+          "dist": "non-default distance column (observed only)"}[_store(case)[3]],
+         "lists_passed_as": case.get("form", "motl"),
+         "exit_list_other_fields": "own values" if case.get("xpay") else "same as entry list",
+         "payload": "random" if any(any(r[9:]) for r in case["rows"]) else "zeros",
+         "calls_in_process": "1" if not case.get("second") else "2 (" + case["second"].get("how", "moved") + ")"}
+    pos = 0
+    for k, (cc, co) in enumerate(zip(_calls(case), (obs.get("calls") or []))):
+        nreq = 2 if _returned(co) else 1
+        rs = (resps or [])[pos:pos + nreq]
+        pos += nreq
+        if co.get("retried"):
+            d.setdefault("timeout_retried", []).append("second attempt returned" if "error" not in co else "confirmed")
+        if _returned(co):
+            out = _decode(cc, co)[0]
+            sizes = {}
+            for t, i, o, kk, g in out:
+                sizes[(t, o)] = sizes.get((t, o), 0) + 1
+            d.setdefault("chain_length", []).extend("1" if v == 1 else "2-3" if v <= 3 else "4-8" if v <= 8 else ">8" for v in sizes.values())
+            ev = co.get("events")
+            d.setdefault("impl_branch_trace", []).append("unavailable" if ev is None or "?" in ev else "compared")
+            if ev:
+                d.setdefault("impl_branch", []).extend(e for e in ev if e != "?")
+            d.setdefault("returned_column_types", []).extend(sorted(set((co.get("dtypes") or {}).values())))
+            if _store(cc)[3] == "dist" and len(rs) == 2 and "orders" in rs[1]:
+                # item 2, observation only: trace_chains does not forward store_dist to the merge helpers
+                same = all([(r[1], r[2], r[3]) for r in out if r[0] == t] == [(m[0], m[1], m[2]) for m in tm["rows"]]
+                           for t, tm in enumerate(rs[0].get("tomos", [])))
+                d.setdefault("nondefault_store_dist (observed only)", []).append(
+                    f"once={rs[1]['once']} orders={rs[1]['orders']} distance-clause-in-named-column={rs[1]['dist']} chains=model:{same}")
+        elif "error" in co:
+            d.setdefault("impl_error", []).append(co["error"][:60])
+        elif "harness_error" in co:
+            d.setdefault("harness_error", []).append(co["harness_error"][:60])
+        elif "skipped" in co:
+            d.setdefault("skipped", []).append("after two confirmed non-returning calls")
     return d
 
 
 def sample_view(case):
     return dict(gen=case.get("gen"), max_distance=case["max"] / S, min_distance=case["min"] / S, n=len(case["rows"]),
-                first_rows=[dict(tomo=r[0], subtomo=r[1], entry=[c / S for c in r[2:5]], exit=[c / S for c in r[5:8]]) for r in case["rows"][:4]])
+                call=case.get("call"), second_call=(case.get("second") or {}).get("how"),
+                first_rows=[dict(tomo=r[0], subtomo=r[1], entry=[c / S for c in r[2:5]], exit=[c / S for c in r[5:8]], other=r[9:]) for r in case["rows"][:4]])
 
 
 def probes(rng):
@@ -768,16 +1361,21 @@ def probes(rng):
 
 LEVEL_TEXT = ("Lean 4 theorems about an executable model of trace_chains/get_nn_dist/add_chain_suffix/add_chain_prefix, for all inputs, sizes and "
               "distance functions: every particle is returned exactly once and chains stay inside their tomogram for every operator table "
-              "(trace_partition, trace_partition_all, trace_no_span); for the operator table read from the source (opts_documented, "
-              "numbering_documented) the ORDER clause and the DISTANCE clause hold through ALL branches - append, suffix attach with/without tail "
-              "cut, prefix attach with/without head cut, two-sided merge with/without either cut, rejected attachments - by the loop invariant "
-              "ChainsWellNumbered + link invariant (trace_chains_well_numbered, trace_orders, trace_dist), hence the whole statement "
-              "(trace_spec_full : SpecFull); the verified checker chainsOk is sound for all clauses (check_sound) and is run on the "
-              "implementation's output of every case; regression witnesses tailcut_roworder_counterexample and "
-              "double_cut_shared_id_counterexample show the two repaired defects violate exactly these invariants")
-LEVEL_NOTE = ("trusted: Lean kernel; translator anchors (24 sites of ribana.py: 13 comparison/bookkeeping operators used by the model + 11 numbering "
-              "constants/shift expressions the model hard-codes); KD-tree radius query = brute force (probed); squared-distance decoding of geom4 "
-              "in the harness; the model-to-code tie is the exact comparison of rows, recorded distances AND of the sequence of suffix/prefix "
-              "branches taken by the real add_chain_suffix/add_chain_prefix calls on every generated case")
-TECHNIQUE = "Lean 4 proof (loop invariant over relabellings of a well-numbered table, sound decidable checker) + regenerated operator table + exact differential correspondence (rows and branch trace) on dyadic grids"
+              "(trace_partition, trace_partition_all, trace_no_span), and is returned AS ITSELF: the emitted row equals the entry-list row in every "
+              "field but the three store columns, for every choice of these columns (trace_returns_particles, emit_other_fields); for the operator "
+              "table read from the source (opts_documented, numbering_documented) the ORDER clause and the DISTANCE clause hold through ALL branches "
+              "- append, suffix attach with/without tail cut, prefix attach with/without head cut, two-sided merge with/without either cut, rejected "
+              "attachments - by the loop invariant ChainsWellNumbered + link invariant (trace_chains_well_numbered, trace_orders, trace_dist), hence "
+              "the whole statement (trace_spec_full : SpecFull); the verified checkers chainsOk (check_sound) and chkFields (check_fields_sound, "
+              "check_fields_complete) are run on the implementation's output of every call; regression witnesses "
+              "tailcut_roworder_counterexample and double_cut_shared_id_counterexample show the two repaired defects violate exactly these invariants")
+LEVEL_NOTE = ("trusted: Lean kernel; translator anchors (33: 13 comparison/bookkeeping operators used by the model + 11 numbering "
+              "constants/shift expressions the model hard-codes, all read from the functions after renaming parameters/locals to the documented "
+              "names by binding position; syntax-tree digests of the four whole function bodies (bodies_documented: every statement, also in "
+              "branches no case executes); the signature defaults and keyword names (defaults_documented, store_documented); the argument lists "
+              "of the two merge-helper calls (merge_calls_as_observed)); KD-tree radius query = brute force (probed); squared-distance decoding "
+              "of the distance column in the harness; the model-to-code tie is the exact comparison of rows, recorded distances AND of the "
+              "sequence of suffix/prefix branches taken by the real add_chain_suffix/add_chain_prefix calls on every generated case, first and "
+              "second call in one process alike")
+TECHNIQUE = "Lean 4 proof (loop invariant over relabellings of a well-numbered table, sound decidable checkers) + regenerated operator table and whole-body digests + exact differential correspondence (rows, fields and branch trace; repeated calls on caller-owned lists) on dyadic grids"
 DESIGN_REF = "DESIGN.md section 4, C19"
